@@ -360,6 +360,7 @@ def unit_stage(res, tier):
 
 
 def run(res, tier):
+    os.environ.setdefault("VERIF_STALL", "300")   # a 1 MB case may take the model runner > 30 s on a loaded machine
     soft, hard = resource.getrlimit(resource.RLIMIT_STACK)
     try:
         resource.setrlimit(resource.RLIMIT_STACK, (hard, hard))
